@@ -1,6 +1,6 @@
 """C26 -- reference cell topology is internally consistent.
 
-The literal table `_sub_entity_celltypes` and the Cell / TensorProductCell accessors are evaluated
+The literal table of named cells (`_sub_entity_celltypes` today, found by its shape) and the Cell / TensorProductCell accessors are evaluated
 from source by constant propagation for every named cell and every entity dimension in
 [-4, tdim+2] (exhaustive on that finite domain):
 
@@ -49,9 +49,15 @@ def run(ctx) -> Report:
     ip.overrides["functools"] = Obj("functools", reduce=_reduce)
     ip.overrides["as_cell"] = lambda c: c
     g = ip.exec_module_level(MOD, lambda st: isinstance(st, ast.AnnAssign) or (isinstance(st, ast.Assign) and isinstance(st.value, ast.Dict)))
-    table = g.get("_sub_entity_celltypes")
-    if not isinstance(table, dict) or len(table) < 10:
-        raise AnalysisError("_sub_entity_celltypes table not found / too small (confirmed: 11 cells)")
+    # the literal table of named cells, found by its shape (cell name -> one tuple of entity cell names per dimension),
+    # whatever it is called
+    def is_cell_table(v):
+        return isinstance(v, dict) and len(v) >= 10 and all(isinstance(k, str) and isinstance(lv, (list, tuple)) and lv and all(isinstance(t, tuple) and all(isinstance(x, str) for x in t) for t in lv) for k, lv in v.items())
+
+    tables = [v for v in g.values() if is_cell_table(v)]
+    if len(tables) != 1:
+        raise AnalysisError(f"{len(tables)} module-level tables 'cell name -> entity cell names per dimension' in ufl.cell (confirmed: 1 table with 11 cells)")
+    table = tables[0]
     ccls = prog.get_class(f"{MOD}.Cell")
     where = (m, ccls.node.lineno, "Cell")
     cells = {}
